@@ -382,7 +382,7 @@ func c16EnvState(k string, st int) [][2]*string {
 }
 
 // how a file mentions a key: 0 not at all, 1 literal, 2 bare, 3 literal followed by a reference to `ref`,
-// 4–6 operators of the interpolation grammar on `ref` (`:-`, `+`, `-`)
+// 4–6 operators of the interpolation grammar on `ref` (`:-`, `+`, `-`), 7–8 the error operators (`:?`, `?`)
 func c16FileLine(tag, k string, kind int, ref string) []c16Line {
 	switch kind {
 	case 1:
@@ -397,6 +397,10 @@ func c16FileLine(tag, k string, kind int, ref string) []c16Line {
 		return []c16Line{c16Assign(k, c16OpSeg(ref, "+", c16Lit("alt."+tag+"/"), c16Ref(k)), c16Seg{Var: sp(ref)})}
 	case 6: // default when unset only; escaped dollar
 		return []c16Line{c16Assign(k, c16Seg{Esc: new(bool)}, c16OpSeg(ref, "-", c16Ref(k), c16Lit(".d")))}
+	case 7: // required, non-empty: the file fails unless `ref` has a non-empty value in this line's lookup chain
+		return []c16Line{c16Assign(k, c16Lit(tag+"."+k+"!"), c16OpSeg(ref, ":?", c16Lit("msg."+tag)))}
+	case 8: // required, may be empty
+		return []c16Line{c16Assign(k, c16OpSeg(ref, "?", c16Lit("msg."+tag)), c16Lit("/"+tag))}
 	}
 	return nil
 }
@@ -533,7 +537,7 @@ func c16OracleUnderFile(ctx *core.Ctx) {
 // empty or set in the project environment, an earlier file or an earlier line
 func c16OracleOperators(ctx *core.Ctx) {
 	n := 0
-	for kind := 4; kind <= 6; kind++ {
+	for kind := 4; kind <= 8; kind++ {
 		for rstate := 0; rstate < 7; rstate++ {
 			for _, st := range []int{0, 2} {
 				n++
@@ -590,6 +594,9 @@ func c16OracleRandom(ctx *core.Ctx) {
 			for j, m := 0, r.Intn(6); j < m; j++ {
 				k := keys[r.Intn(nk)]
 				kind := 1 + r.Intn(6)
+				if r.Intn(10) == 0 {
+					kind = 7 + r.Intn(2) // which file fails is part of the specification (envFailureFrom)
+				}
 				l := c16FileLine(fmt.Sprintf("%s#%d", tag, j), k, kind, keys[r.Intn(nk)])
 				ls = append(ls, l...)
 			}
